@@ -78,6 +78,13 @@ def escape_obligations(ctx, rule, repo, entry, tolerant, allowed_families, what)
             nm_ = node.exc.args[0].id
             defs_ = [st_.value for st_ in ast_mod.walk(origin_fn.node) if isinstance(st_, ast_mod.Assign)
                      and len(st_.targets) == 1 and isinstance(st_.targets[0], ast_mod.Name) and st_.targets[0].id == nm_]
+            if not defs_:
+                # ... or in a module-level constant of the raising function's module
+                try:
+                    defs_ = [origin_fn.mod.toplevel_assign(nm_)]
+                except Exception:
+                    defs_ = []
+                defs_ = [d_ for d_ in defs_ if d_ is not None]
             if len(defs_) == 1:
                 import copy as _copy
                 n2 = ast_mod.Raise(exc=ast_mod.Call(func=node.exc.func, args=[defs_[0]], keywords=node.exc.keywords), cause=None)
